@@ -5,7 +5,9 @@ package main
 // era's whole UtxoValidationRules list, classifying errors by type.
 
 import (
+	"encoding/hex"
 	"errors"
+	"sort"
 	"fmt"
 	"math/big"
 	"strconv"
@@ -32,8 +34,18 @@ func genC32(r *Rand, n int, tier string, emit func(string)) {
 	eras := []string{"alonzo", "babbage", "conway", "dijkstra"}
 	for i := 0; i < n; i++ {
 		era := eras[r.Intn(4)]
-		red := !r.Chance(1, 8)
-		pct := Pick(r, uint64(150), 150, 100, 0, 1, 99, 101, 250, uint64(r.Intn(1000)))
+		red := "0"
+		if !r.Chance(1, 8) {
+			switch era {
+			case "alonzo", "babbage":
+				red = Pick(r, "c", "L")
+			case "conway":
+				red = Pick(r, "c", "L", "M")
+			default:
+				red = Pick(r, "c", "M")
+			}
+		}
+		pct := Pick(r, uint64(150), 150, 100, 0, 1, 99, 101, 133, 250, uint64(r.Intn(1000)))
 		var fee uint64
 		switch r.Intn(5) {
 		case 0:
@@ -70,15 +82,13 @@ func genC32(r *Rand, n int, tier string, emit func(string)) {
 		}
 		tgt := target.Uint64()
 		// collateral return (Babbage+): sometimes present, shifts the balance
-		ret := "-"
 		var retCoin uint64
-		hasTok := r.Chance(1, 4)
-		tokTotal := uint64(0)
-		coins := make([]uint64, nIn)
-		toks := make([]uint64, nIn)
+		hasRet := false
 		if era != "alonzo" && r.Chance(1, 2) {
+			hasRet = true
 			retCoin = uint64(r.Intn(1000))
 		}
+		coins := make([]uint64, nIn)
 		remaining := tgt + retCoin
 		for j := 0; j < nIn; j++ {
 			if j == nIn-1 {
@@ -91,44 +101,127 @@ func genC32(r *Rand, n int, tier string, emit func(string)) {
 				coins[j] = c
 				remaining -= c
 			}
-			if hasTok && r.Chance(1, 2) {
-				toks[j] = uint64(r.Intn(5))
-				tokTotal += toks[j]
-			}
 		}
-		if era != "alonzo" && (retCoin > 0 || r.Chance(1, 3)) {
-			rt := tokTotal
-			if r.Chance(1, 4) {
-				rt = uint64(r.Intn(6))
+		// tokens: a few asset ids (id = 2*policy + name) spread over the inputs
+		toks := make([]string, nIn)
+		for j := range toks {
+			toks[j] = "-"
+		}
+		total := map[int]uint64{}
+		if nIn > 0 && r.Chance(2, 5) {
+			k := 1 + r.Intn(3)
+			for t := 0; t < k; t++ {
+				id := r.Intn(6)
+				j := r.Intn(nIn)
+				q := uint64(r.Intn(4)) // 0 = zero-quantity entry
+				if r.Chance(1, 6) {
+					q = r.EdgeU64() >> 2
+				}
+				ent := fmt.Sprintf("%d:%d", id, q)
+				if strings.Contains(","+toks[j]+",", fmt.Sprintf(",%d:", id)) {
+					continue // ids are distinct within one bundle
+				}
+				if toks[j] == "-" || toks[j] == "e" {
+					toks[j] = ent
+				} else {
+					toks[j] += "," + ent
+				}
+				total[id] += q
 			}
-			ret = fmt.Sprintf("%d:%d", retCoin, rt)
+		} else if nIn > 0 && r.Chance(1, 10) {
+			toks[r.Intn(nIn)] = "e"
+		}
+		ret := "-"
+		if era != "alonzo" && (hasRet || len(total) > 0 && r.Chance(3, 4)) {
+			ids := []int{}
+			for id := range total {
+				ids = append(ids, id)
+			}
+			sort.Ints(ids)
+			parts := []string{}
+			mode := r.Intn(8) // 0..3 exact, 4 drop one, 5 wrong qty, 6 extra id, 7 none
+			for x, id := range ids {
+				q := total[id]
+				if mode == 4 && x == len(ids)-1 {
+					continue
+				}
+				if mode == 5 && x == 0 {
+					q += uint64(1 + r.Intn(2))
+				}
+				if q == 0 && r.Chance(1, 2) {
+					continue // a zero total need not be listed
+				}
+				parts = append(parts, fmt.Sprintf("%d:%d", id, q))
+			}
+			if mode == 6 {
+				extra := r.Intn(6)
+				if _, ok := total[extra]; !ok {
+					parts = append(parts, fmt.Sprintf("%d:%d", extra, 1+r.Intn(3)))
+				}
+			}
+			ts := "-"
+			if mode != 7 && len(parts) > 0 {
+				ts = strings.Join(parts, ",")
+			} else if r.Chance(1, 5) {
+				ts = "e"
+			}
+			ret = fmt.Sprintf("%d/%s", retCoin, ts)
 		}
 		var sb strings.Builder
-		fmt.Fprintf(&sb, "coll %s %s %d %d %d %s %d", era, b01(red), fee, pct, max, ret, nIn)
+		fmt.Fprintf(&sb, "coll %s %s %d %d %d %s %d", era, red, fee, pct, max, ret, nIn)
 		for j := 0; j < nIn; j++ {
-			fmt.Fprintf(&sb, " %d %d", coins[j], toks[j])
+			fmt.Fprintf(&sb, " %d/%s", coins[j], toks[j])
 		}
 		emit(sb.String())
 	}
 }
 
-func b01(b bool) string {
-	if b {
-		return "1"
+var c32Policies = []common.Blake2b224{
+	common.Blake2b224Hash([]byte("policy0")), common.Blake2b224Hash([]byte("policy1")), common.Blake2b224Hash([]byte("policy2")),
+}
+var c32Names = [][]byte{[]byte("tokA"), []byte("tokB")}
+
+// c32Out parses "coin/tokspec".
+func c32Out(s string) (coin uint64, assets *common.MultiAsset[common.MultiAssetTypeOutput], ok bool) {
+	p := strings.Split(s, "/")
+	if len(p) != 2 {
+		return 0, nil, false
 	}
-	return "0"
+	c, err := strconv.ParseUint(p[0], 10, 64)
+	if err != nil {
+		return 0, nil, false
+	}
+	switch p[1] {
+	case "-":
+		return c, nil, true
+	case "e":
+		ma := common.NewMultiAsset[common.MultiAssetTypeOutput](map[common.Blake2b224]map[cbor.ByteString]common.MultiAssetTypeOutput{})
+		return c, &ma, true
+	}
+	data := map[common.Blake2b224]map[cbor.ByteString]common.MultiAssetTypeOutput{}
+	for _, ent := range strings.Split(p[1], ",") {
+		kv := strings.Split(ent, ":")
+		if len(kv) != 2 {
+			return 0, nil, false
+		}
+		id, e1 := strconv.Atoi(kv[0])
+		q, e2 := strconv.ParseUint(kv[1], 10, 64)
+		if e1 != nil || e2 != nil || id < 0 || id >= 6 {
+			return 0, nil, false
+		}
+		pol := c32Policies[id/2]
+		if data[pol] == nil {
+			data[pol] = map[cbor.ByteString]common.MultiAssetTypeOutput{}
+		}
+		data[pol][cbor.NewByteString(c32Names[id%2])] = new(big.Int).SetUint64(q)
+	}
+	ma := common.NewMultiAsset[common.MultiAssetTypeOutput](data)
+	return c, &ma, true
 }
 
-func c32Assets(q uint64) *common.MultiAsset[common.MultiAssetTypeOutput] {
-	ma := common.NewMultiAsset[common.MultiAssetTypeOutput](
-		map[common.Blake2b224]map[cbor.ByteString]common.MultiAssetTypeOutput{
-			common.Blake2b224Hash([]byte("abcd")): {
-				cbor.NewByteString([]byte("efgh")): new(big.Int).SetUint64(q),
-			},
-		},
-	)
-	return &ma
-}
+// redeemer encodings: one spend redeemer, data 0, ex units (1,1)
+var c32LegacyRedeemers, _ = hex.DecodeString("8184000000820101")
+var c32MapRedeemers, _ = hex.DecodeString("a18200008200820101")
 
 func runC32(op string) string {
 	f := strings.Fields(op)
@@ -136,50 +229,37 @@ func runC32(op string) string {
 		return "bad-op"
 	}
 	era := f[1]
-	red := f[2] == "1"
+	redForm := f[2]
 	fee, e1 := strconv.ParseUint(f[3], 10, 64)
 	pct, e2 := strconv.ParseUint(f[4], 10, 64)
 	max, e3 := strconv.ParseUint(f[5], 10, 64)
 	nIn, e4 := strconv.Atoi(f[7])
-	if e1 != nil || e2 != nil || e3 != nil || e4 != nil || len(f) != 8+2*nIn {
+	if e1 != nil || e2 != nil || e3 != nil || e4 != nil || len(f) != 8+nIn {
 		return "bad-op"
 	}
 	var retOut *babbage.BabbageTransactionOutput
 	if f[6] != "-" {
-		p := strings.Split(f[6], ":")
-		if len(p) != 2 {
+		rc, ra, ok := c32Out(f[6])
+		if !ok || era == "alonzo" {
 			return "bad-op"
 		}
-		rc, e5 := strconv.ParseUint(p[0], 10, 64)
-		rt, e6 := strconv.ParseUint(p[1], 10, 64)
-		if e5 != nil || e6 != nil {
-			return "bad-op"
-		}
-		v := mary.MaryTransactionOutputValue{Amount: rc}
-		if rt > 0 {
-			v.Assets = c32Assets(rt)
-		}
-		retOut = &babbage.BabbageTransactionOutput{OutputAmount: v}
+		retOut = &babbage.BabbageTransactionOutput{OutputAmount: mary.MaryTransactionOutputValue{Amount: rc, Assets: ra}}
 	}
 	utxos := []common.Utxo{}
 	ins := []shelley.ShelleyTransactionInput{}
 	for j := 0; j < nIn; j++ {
-		c, e7 := strconv.ParseUint(f[8+2*j], 10, 64)
-		t, e8 := strconv.ParseUint(f[9+2*j], 10, 64)
-		if e7 != nil || e8 != nil {
+		c, a, ok := c32Out(f[8+j])
+		if !ok {
 			return "bad-op"
 		}
 		in := shelley.NewShelleyTransactionInput(c32TxId, j)
 		ins = append(ins, in)
 		var out common.TransactionOutput
-		if t > 0 {
-			out = babbage.BabbageTransactionOutput{
-				OutputAmount: mary.MaryTransactionOutputValue{Amount: c, Assets: c32Assets(t)},
-			}
+		if a != nil {
 			if era == "alonzo" {
-				out = alonzo.AlonzoTransactionOutput{
-					OutputAmount: mary.MaryTransactionOutputValue{Amount: c, Assets: c32Assets(t)},
-				}
+				out = alonzo.AlonzoTransactionOutput{OutputAmount: mary.MaryTransactionOutputValue{Amount: c, Assets: a}}
+			} else {
+				out = babbage.BabbageTransactionOutput{OutputAmount: mary.MaryTransactionOutputValue{Amount: c, Assets: a}}
 			}
 		} else {
 			out = shelley.ShelleyTransactionOutput{OutputAmount: c}
@@ -190,18 +270,30 @@ func runC32(op string) string {
 	coll := cbor.NewSetType(ins, false)
 	legacyRed := alonzo.AlonzoRedeemers{}
 	mapRed := map[common.RedeemerKey]common.RedeemerValue{}
-	if red {
+	switch redForm {
+	case "0":
+	case "c":
 		legacyRed.Redeemers = []alonzo.AlonzoRedeemer{{}}
 		mapRed[common.RedeemerKey{}] = common.RedeemerValue{}
+	case "L":
+		if era == "dijkstra" {
+			return "bad-op"
+		}
+		if _, err := cbor.Decode(c32LegacyRedeemers, &legacyRed); err != nil {
+			return "harness-error legacy redeemers do not decode: " + err.Error()
+		}
+	case "M":
+		if era == "alonzo" || era == "babbage" {
+			return "bad-op"
+		}
+	default:
+		return "bad-op"
 	}
 	var tx common.Transaction
 	var pp common.ProtocolParameters
 	var rules []common.UtxoValidationRuleFunc
 	switch era {
 	case "alonzo":
-		if retOut != nil {
-			return "bad-op"
-		}
 		t := &alonzo.AlonzoTransaction{}
 		t.Body.TxFee = fee
 		t.Body.TxCollateral = coll
@@ -223,7 +315,18 @@ func runC32(op string) string {
 		t.Body.TxFee = fee
 		t.Body.TxCollateral = coll
 		t.Body.TxCollateralReturn = retOut
-		t.WitnessSet.WsRedeemers = conway.ConwayRedeemers{Redeemers: mapRed}
+		switch redForm {
+		case "L":
+			if _, err := cbor.Decode(c32LegacyRedeemers, &t.WitnessSet.WsRedeemers); err != nil {
+				return "harness-error " + err.Error()
+			}
+		case "M":
+			if _, err := cbor.Decode(c32MapRedeemers, &t.WitnessSet.WsRedeemers); err != nil {
+				return "harness-error " + err.Error()
+			}
+		default:
+			t.WitnessSet.WsRedeemers = conway.ConwayRedeemers{Redeemers: mapRed}
+		}
 		tx = t
 		pp = &conway.ConwayProtocolParameters{CollateralPercentage: uint(pct), MaxCollateralInputs: uint(max)}
 		rules = conway.UtxoValidationRules
@@ -234,7 +337,13 @@ func runC32(op string) string {
 		if retOut != nil {
 			t.Body.TxCollateralReturn = &dijkstra.DijkstraTransactionOutput{Output: retOut}
 		}
-		t.WitnessSet.WsRedeemers = dijkstra.DijkstraRedeemers{Redeemers: mapRed}
+		if redForm == "M" {
+			if _, err := cbor.Decode(c32MapRedeemers, &t.WitnessSet.WsRedeemers); err != nil {
+				return "harness-error " + err.Error()
+			}
+		} else {
+			t.WitnessSet.WsRedeemers = dijkstra.DijkstraRedeemers{Redeemers: mapRed}
+		}
 		tx = t
 		dp := &dijkstra.DijkstraProtocolParameters{}
 		dp.CollateralPercentage = uint(pct)
